@@ -7,7 +7,7 @@ def run(run, tier):
     inv = l17.inventory()
     run.sample(dict(kind="state inventory (recomputed from the imported modules)", cells=[f"{m}.{n}" for (m, n) in sorted(inv)][:60]))
     hs = l17.harnesses(tier, run.seed)
-    ch.run_harnesses(run, "C17", hs, timeout=200 if tier == "quick" else 600)
+    ch.run_harnesses(run, "C17", hs, timeout=150 if tier == "quick" else 600)
     # validation traces: a few histories compared with a genuinely fresh interpreter
     n = 0
     for (o1, s1, d1, o2, s2, d2) in [(0, 0, 0, 1, 1, 0), (1, 0, 1, 3, 1, 0), (6, 3, 0, 2, 4, 0), (7, 0, 0, 4, 2, 0), (2, 4, 0, 2, 3, 0)]:
